@@ -16,7 +16,7 @@ Extraction "model.ml"
   Broker.st_init Broker.step Broker.run Broker.no_hooks Broker.set_picks_tag
   TopicMatch.valid_name_spec TopicMatch.valid_filter_spec Topic.topic_match
   CodecPackets.read_packet CodecPackets.read_packet_full CodecPackets.pack_full CodecPackets.pack CodecPackets.total_bytes
-  CodecPackets.message_to_publish CodecPackets.next_version
+  CodecPackets.message_to_publish CodecPackets.message_from_publish CodecPackets.msg_core Msg.msg_eqb CodecPackets.next_version
   CodecSpec.spec_decode CodecSpec.spec_encode CodecSpec.wf_packet CodecSpec.spec_utf8 CodecSpec.has_ctl
   C06O.model_stream C06O.model_stream_alloc C06O.model_dec1 C06O.model_reenc C06O.c06_decode_ok C06O.stream_ok C06O.alloc_ok C06O.alloc_agree
   C06O.body_eqb C06O.may_reject
